@@ -104,6 +104,8 @@ static const Geo GEOS[] = {
   {"wgs84-meridional", WA, WF, -30, 10, 0, true},
   {"f=0.1-generic", WA, 0.1, -45, 0, 30, true},                 // |f| > 0.01: the Newton-corrected distance branch
   {"prolate-east-across-antimeridian", WA, -1 / 150.0, 20, 179, 100, true},   // lon2 differs with LONG_UNROLL already at 35 deg
+  {"f=1/25-oblique", WA, 0.04, 20, 10, 28, true},               // 0.01 < |f| <= 0.05: Newton-corrected distance branch, below f = 0.1
+  {"f=-1/50-prolate-oblique", WA, -0.02, -35, 40, 150, false},
   {"wgs84-equatorial", WA, WF, 0, 0, 90, false},
   {"wgs84-north-pole-start", WA, WF, 90, 20, 130, false},
   {"sphere", WA, 0, 10, 0, 80, false},
@@ -538,7 +540,10 @@ template <class S> static void run_solver(Ctx& ctx, bool T) {
       double coslat = std::cos(A.v[0] * Math::degree());
       double dpos = std::hypot((A.v[0] - D.v[0]) * Math::degree() * big, std::remainder(A.v[1] - D.v[1], 360.0) * Math::degree() * big * coslat);
       double dazi = std::fabs(std::remainder(A.v[2] - D.v[2], 360.0)) * Math::degree() * big * std::fmax(coslat, 1e-3);    // azimuth is ill-defined at the pole itself
-      double tol = 2 * docm * std::fmax(1.0, std::fabs(ARCS[p]) / 180);
+      // The coincidence of the arc- and distance-specified point is a self-consistency claim ("the same point"), not an
+      // absolute-accuracy claim: the documented accuracy (10 um for |f| <= 0.05, ...) is no yardstick for it.  Calibrated:
+      // worst observed on the unchanged tree 3.1 nm (a = WGS84 a), frozen at 16 nm per half turn, never looser than 2 x documented.
+      double tol = std::fmin(2 * docm, 16e-9 * q.a / WA) * std::fmax(1.0, std::fabs(ARCS[p]) / 180);
       ctx.worst("arc_vs_distance.position_over_tol", dpos / tol, key); ctx.worst("arc_vs_distance.azimuth_over_tol", dazi / tol, key);
       if (!(dpos <= tol)) ctx.fail(key + " arc-dist", "Position(s12 of ArcPosition(a12)) is " + fmt(dpos) + " m from ArcPosition(a12) (tolerance " + fmt(tol) + ")", FF("arc-vs-distance"));
       if (!(dazi <= tol)) ctx.fail(key + " arc-dist-azi", "azi2 differs by " + fmt(dazi) + " m-equivalent between arc- and distance-specified position", FF("arc-vs-distance"));
@@ -686,7 +691,7 @@ int main(int argc, char** argv) {
   ctx.bound("solvers", "Geodesic (series), GeodesicExact, Geodesic(exact=true); Rhumb series and exact");
   ctx.bound("outmask", "all 2^8 subsets of {LATITUDE,LONGITUDE,AZIMUTH,DISTANCE,REDUCEDLENGTH,GEODESICSCALE,AREA,LONG_UNROLL}");
   ctx.bound("caps", "all 2^8 subsets of {LATITUDE,LONGITUDE,AZIMUTH,DISTANCE,DISTANCE_IN,REDUCEDLENGTH,GEODESICSCALE,AREA}");
-  ctx.bound("geodesics", T ? "12 (generic, meridional, equatorial, nearly equatorial, both pole starts, southward, prolate x2, f=0.1, sphere, a=1)" : "4 (WGS84 generic, WGS84 meridional, f=0.1 generic, prolate east-going across the antimeridian)");
+  ctx.bound("geodesics", T ? "14 (f=1/25, f=-1/50, generic, meridional, equatorial, nearly equatorial, both pole starts, southward, prolate x2, f=0.1, sphere, a=1)" : "5 (WGS84 generic, WGS84 meridional, f=0.1 generic, f=1/25 oblique, prolate east-going across the antimeridian)");
   ctx.bound("positions", T ? "arc lengths 35, -50, 200, 725.5 deg and the corresponding distances" : "arc lengths 35, -50 deg and the corresponding distances");
   check_enums(ctx);
   run_solver<SeriesT>(ctx, T);
